@@ -44,7 +44,13 @@ func runC12(e *Env) error {
 			body.WriteString("[{{ " + params[i] + " }}]")
 		}
 		// an escaped delimiter in the body is literal text there as anywhere else: the argument is not substituted into it
-		body.WriteString("g={{ g }};L\\{{ g }}\\{{ p }};{{ sib('z') }}{% set leak = 'LEAK' %}{% set g = 'changed' %}{% do h = 'changed-by-do' %}{% do leak2 = 1 %})")
+		// one signature in four carries escaped delimiters in its body (literal text there as anywhere; the Lean model
+		// leaves such bodies unmodelled, so the other three keep the model correspondence)
+		escTxt, escOut := "", ""
+		if (arity+defMask+argc+placement)%4 == 0 {
+			escTxt, escOut = "L\\{{ g }}\\{{ p }};", "L{{ g }}{{ p }};"
+		}
+		body.WriteString("g={{ g }};" + escTxt + "{{ sib('z') }}{% set leak = 'LEAK' %}{% set g = 'changed' %}{% do h = 'changed-by-do' %}{% do leak2 = 1 %})")
 		lib := "{% macro " + mn + "(" + strings.Join(sig, ", ") + ") %}" + body.String() + "{% endmacro %}{% macro sib(x) %}S{{ x }}{% endmacro %}"
 		args := make([]string, argc)
 		argOut := make([]string, argc)
@@ -73,7 +79,7 @@ func runC12(e *Env) error {
 				want.WriteString("[]")
 			}
 		}
-		want.WriteString("g=G;L{{ g }}{{ p }};Sz)")
+		want.WriteString("g=G;" + escOut + "Sz)")
 		call := func(prefix string) string { return "{{ " + prefix + "(" + strings.Join(args, ", ") + ") }}" }
 		after := "|{{ leak is defined or leak2 is defined ? 'LEAKED' : 'clean' }}|{{ g }}{{ h == 'H' ? '' : h }}"
 		wrap := func(inner string) string {
